@@ -15,7 +15,9 @@ pub mod peers;
 pub mod registry_tree;
 pub mod stream_ctl;
 pub mod svs;
+pub mod ws_client;
 pub mod ws_common;
+pub mod ws_dispatch;
 pub mod ws_lifecycle;
 pub mod ws_limits;
 pub mod ws_offreader;
@@ -38,6 +40,8 @@ pub fn all() -> &'static [Family] {
         v.extend(ws_offreader::families());
         v.extend(ws_lifecycle::families());
         v.extend(ws_limits::families());
+        v.extend(ws_client::families());
+        v.extend(ws_dispatch::families());
         v
     })
 }
